@@ -65,7 +65,7 @@ func trigger(c fcase, in input, delivery string) string {
 func main() {
 	run := evid.New("C08", "exploration")
 	defer sbx.RemoveBase()
-	run.Rule = "Inputs classified by construction: P = canonical pointers (ptrspec, random oid/size, 0-3 extension lines) and the frozen non-canonical spellings {CRLF, no final newline, +1/+3 trailing blank lines, hawser URL, git-media URL, empty file}, all < 1024 bytes; N = (a) a class-P text + {x, blank+unknown line, #-comment line, NUL+random payload to 1023/1024/1025/5000 bytes}, (b) canonical pointer padded to >= 1024 bytes with blank lines / spaces / comment lines (also text only after byte 1024), (c) filt content classes {random, text LF/CRLF, zeros, pointer-prefix+payload, look-alike} x sizes {1,2,100,1023,1024,1025,4096,70000}; D = debatable spellings (run, not judged). Delivery: one-shot clean/smudge through a pipe with write(2) plans {whole, 1, 7, 100, 512, 1023, 1024, 1025, 4096, random, first write ends exactly at the end of the pointer text, pointer text split in the middle, both, all-but-last-byte} with drain-aware pauses; filter-process through an independent pkt-line client with packet sizes {1, 7, 100, 65516, random, boundary at end of pointer text}; working-tree file at the path {absent, same, 10 bytes, 5000 unrelated bytes (class P)}; optionally one LFS extension configured. Oracle P: clean output == input, object count unchanged, exit 0. Oracle N: clean output is a canonical pointer naming SHA-256/size of a stored object equal to the input, smudge(clean(x)) == x, and smudge(x) == x with success. Git level: repository with LFS files of 8 sizes + look-alikes + pointer blobs in every frozen spelling, cloned / re-checked-out with smudging skipped (env or config), then status, add -A, stash, stash pop, commit -a, add --renormalize, commit -a with all pointer files made stat-dirty before each step; index and HEAD blob ids (plain git) must stay the original pointer blob ids, status clean, object count unchanged; process filter and one-shot filters. Spool-fault dimension of the smudge pass-through: non-pointer inputs (>= 1024 bytes and shorter) smudged through {fpclient smudge, fpclient smudge with can-delay, git checkout -- f and git cat-file --filters HEAD:f with the process filter, one-shot git lfs smudge, the two Git commands with one-shot filters only} x {no fault, .git/lfs/tmp a regular file, .git/lfs/tmp a directory of mode 0555 (left out where it does not stop the driver itself, e.g. as root), .git/lfs/tmp a dangling symbolic link, TMPDIR a regular file (must be irrelevant)}; oracle under a fault: success (status=success twice / exit 0) with output == input, or a reported failure; success with output != input is the violation. Environment coordinate GIT_LFS_PROGRESS in {unset (all cases above), absolute usable path}: a sample rotating with seed and round of clean-side cases with the variable set — class N with the working-tree file at the path {the pointer text the input begins with (as a checkout with smudging skipped leaves it), 10 bytes, 5000 bytes under a 70000-byte input, same, absent, larger} and class P with {same, 5000 unrelated bytes, 10 bytes, absent}, through one-shot clean, filter-process clean (fpclient) and real Git (git hash-object -w --path --stdin with the process filter and with one-shot filters, output read back with the filters disabled, smudge through git cat-file --filters --path; also with the variable unset), plus two Git-level scenarios per round with the variable set on git add and every later command; oracles unchanged; triggers carry progress-env. Class = all coordinates. A violation seen with a non-default delivery is re-run with the default delivery (same input) and gets trigger delivery 'any-delivery' if it reproduces there."
+	run.Rule = "Inputs classified by construction: P = canonical pointers (ptrspec, random oid/size, 0-3 extension lines) and the frozen non-canonical spellings {CRLF, no final newline, +1/+3 trailing blank lines, hawser URL, git-media URL, empty file}, all < 1024 bytes; N = (a) a class-P text + {x, blank+unknown line, #-comment line, NUL+random payload to 1023/1024/1025/5000 bytes}, (b) canonical pointer padded to >= 1024 bytes with blank lines / spaces / comment lines (also text only after byte 1024), (c) filt content classes {random, text LF/CRLF, zeros, pointer-prefix+payload, look-alike} x sizes {1,2,100,1023,1024,1025,4096,70000}; D = debatable spellings (run, not judged). Delivery: one-shot clean/smudge through a pipe with write(2) plans {whole, 1, 7, 100, 512, 1023, 1024, 1025, 4096, random, first write ends exactly at the end of the pointer text, pointer text split in the middle, both, all-but-last-byte} with drain-aware pauses; filter-process through an independent pkt-line client with packet sizes {1, 7, 100, 65516, random, boundary at end of pointer text}; working-tree file at the path {absent, same, 10 bytes, 5000 unrelated bytes (class P)}; optionally one LFS extension configured. Oracle P: clean output == input, object count unchanged, exit 0. Oracle N: clean output is a canonical pointer naming SHA-256/size of a stored object equal to the input, smudge(clean(x)) == x, and smudge(x) == x with success. Git level: repository with LFS files of 8 sizes + look-alikes + pointer blobs in every frozen spelling, cloned / re-checked-out with smudging skipped (env or config), then status, add -A, stash, stash pop, commit -a, add --renormalize, commit -a with all pointer files made stat-dirty before each step; index and HEAD blob ids (plain git) must stay the original pointer blob ids, status clean, object count unchanged; process filter and one-shot filters. Spool-fault dimension of the smudge pass-through: non-pointer inputs (>= 1024 bytes and shorter) smudged through {fpclient smudge, fpclient smudge with can-delay, git checkout -- f and git cat-file --filters HEAD:f with the process filter, one-shot git lfs smudge, the two Git commands with one-shot filters only} x {no fault, .git/lfs/tmp a regular file, .git/lfs/tmp a directory of mode 0555 (left out where it does not stop the driver itself, e.g. as root), .git/lfs/tmp a dangling symbolic link, TMPDIR a regular file (must be irrelevant)}; oracle under a fault: success (status=success twice / exit 0) with output == input, or a reported failure; success with output != input is the violation. Environment coordinate GIT_LFS_PROGRESS in {unset (all cases above), absolute usable path}: a sample rotating with seed and round of clean-side cases with the variable set — class N with the working-tree file at the path {the pointer text the input begins with (as a checkout with smudging skipped leaves it), 10 bytes, 5000 bytes under a 70000-byte input, same, absent, larger} and class P with {same, 5000 unrelated bytes, 10 bytes, absent}, through one-shot clean, filter-process clean (fpclient) and real Git (git hash-object -w --path --stdin with the process filter and with one-shot filters, output read back with the filters disabled, smudge through git cat-file --filters --path; also with the variable unset), plus two Git-level scenarios per round with the variable set on git add and every later command; oracles unchanged; triggers carry progress-env. Configuration coordinate reference store in {none (all cases above), line added to objects/info/alternates after init/clone, GIT_ALTERNATE_OBJECT_DIRECTORIES in the environment, git clone --reference with smudging skipped and the borrowed objects removed again}: class-P pointers (every non-empty spelling, rotating) that name a real object of {1, 100, 5000, 70000} bytes stored hash-valid in the reference repository's lfs/objects and absent locally (checked before every clean), cleaned through one-shot clean, filter-process clean (twice), git hash-object --path (process and one-shot filters), and three Git-level skip-smudge scenarios per round (clone of the origin, origin store as reference store); the object oracle compares the SET of files under .git/lfs/objects before and after every clean / every Git step; triggers carry reference-store/<how>. Class = all coordinates. A violation seen with a non-default delivery is re-run with the default delivery (same input) and gets trigger delivery 'any-delivery' if it reproduces there."
 	run.Assumptions = []string{
 		"class membership is by construction; the frozen non-canonical spellings were confirmed once against the pinned decoder (git lfs pointer --check --stdin/--file) and are data in inputs.go",
 		"pipe chunking with drain-aware pauses is a legal OS schedule; nothing is assumed about timing",
@@ -219,6 +219,13 @@ func main() {
 		// ---- environment coordinate GIT_LFS_PROGRESS = absolute usable path (progresscase.go)
 		for _, c := range progressCases(round, run.Seed, run.Thorough()) {
 			addF(c)
+		}
+		// ---- configuration coordinate: a reference store holds the objects the class-P pointers name (refstore.go)
+		for _, c := range refCases(round, run.Seed, run.Thorough()) {
+			addF(c)
+		}
+		for _, g := range refGitCases(round, run.Seed) {
+			addG(g)
 		}
 		pg := []gcase{{FilterMode: "process", Setup: "clone", Skip: "env"}, {FilterMode: "oneshot", Setup: "recheckout", Skip: "config"}, {FilterMode: "process", Setup: "recheckout", Skip: "config"}, {FilterMode: "oneshot", Setup: "clone", Skip: "env"}}
 		for i := 0; i < 2; i++ {
